@@ -34,7 +34,7 @@ def static_name(v):
 
 def uv(v):
     v = deref(v)
-    if isinstance(v, Opaque) and v.what == "unit-variant":
+    if isinstance(v, Opaque) and v.what in ("unit-variant", "const") and isinstance(v.data, str) and re.fullmatch(r"[\w:]+", v.data):
         return v.data.split("::")[-1]
     return None
 
@@ -211,7 +211,19 @@ class CliEnv(C.CsrEnv):
         if re.match(r"^<String as TryInto<(rcgen::)?(string::)?Ia5String>>::try_into$", c):
             s = deref(args[0])
             return result(z3.Bool(f"host_{s.data}_is_ascii"), Opaque("ia5-of", str(s.data)), "not-ascii")
-        return C.CsrEnv.__call__(self, eng, callee, args, st)
+        r = C.CsrEnv.__call__(self, eng, callee, args, st)
+        if r is None and self.resolve_quiet(eng, callee, args) is None and getattr(eng, "cur_ret_type", "?") == "bool" \
+                and re.match(r"^(core::str::<impl str>|str|<str as .*>|<String as .*>|String|char|core::char::methods::<impl char>)::", c):
+            # an unknown predicate over a string: an arbitrary answer (the specification then shows whether the result may depend on it)
+            self.m.fresh += 1
+            return one(Z(z3.Bool(f"string_predicate!{self.m.fresh}")))
+        return r
+
+    def resolve_quiet(self, eng, callee, args):
+        try:
+            return self.resolve(eng, callee, args)
+        except Unsupported:
+            return None
 
     def collect_results(self, eng, mp, st):
         it, clo = mp.data
@@ -403,9 +415,19 @@ def ob_cli(fns):
             if got != want:
                 return fail(f"parse_sans returns {got}; expected {want} (IP literals as IP addresses, everything else as DNS names, in order)")
         else:
-            # an error is only right when some name is neither an IP literal nor ASCII
-            bad = any(facts[f"host_{k}_is_ip_literal"] is False and facts[f"host_{k}_is_ascii"] is False for k in ("0", "1"))
-            if not bad:
+            # an error is only right when some name is neither an IP literal nor ASCII (names are examined in order up to the first such one)
+            legit = False
+            for k in ("0", "1"):
+                ip, asc = facts[f"host_{k}_is_ip_literal"], facts[f"host_{k}_is_ascii"]
+                if ip is None:
+                    return fail("parse_sans: whether a name is treated as an IP literal does not depend on the address parser alone (some IP literals end up as "
+                                "DNS names or errors)")
+                if ip is False and asc is False:
+                    legit = True
+                    break
+                if ip is False and asc is None:
+                    return fail("parse_sans: an error that does not depend on the name being ASCII")
+            if not legit:
                 return fail("parse_sans refuses names that are all IP literals or ASCII")
     if n_ok2 == 0:
         ob.result, ob.reason = "inconclusive", "no Ok path of parse_sans was reached (vacuous)"
